@@ -598,6 +598,31 @@ def check_predicates(report, db, F, T, tier, R1):
                             pos[bad[1]]))
         report.note('predicate evaluations', '%s: %d' % (name, n))
 
+    # -- a context is about the version it was made for ---------------
+    # (the order-type argument below folds the predicates at representative
+    # versions; it needs the constructor to be the identity on *every* one)
+    init = db.find_method(ctxci, '__init__')
+    badv = []
+    for v in known:
+        try:
+            got = F.getattr(F.context(v), 'protocol_version', ctxci.node,
+                            ctxci.module)
+        except FoldRaise as e:
+            got = 'raises %s' % e.exc_type
+        if not (got == v and type(got) is type(v)):
+            badv.append((v, got))
+    if badv:
+        report.violation(
+            R1, 'context:holds-version', ctxci.path,
+            init.node if init is not None else ctxci.node,
+            'ConnectionContext.__init__', 'ConnectionContext('
+            'protocol_version=%r).protocol_version folds to %r (%d of %d '
+            'known versions differ): its predicates then answer for another '
+            'version' % (badv[0][0], badv[0][1], len(badv), len(known)))
+    else:
+        report.ok(R1, 'ConnectionContext(protocol_version=v).protocol_version'
+                  ' is v for all %d known versions' % len(known))
+
     # -- the five context predicates -----------------------------------
     for name in ['protocol_earlier', 'protocol_earlier_eq', 'protocol_later',
                  'protocol_later_eq', 'protocol_in_range']:
